@@ -163,6 +163,9 @@ unsafe fn arena_free(p: usize) -> bool {
     false
 }
 
+/// fill byte of memory handed out without a zeroing request
+const POISON: u8 = 0xa5;
+
 unsafe impl GlobalAlloc for GAlloc {
     unsafe fn alloc(&self, layout: Layout) -> *mut u8 {
         if ARMED.load(Relaxed) {
@@ -184,12 +187,22 @@ unsafe impl GlobalAlloc for GAlloc {
             if place != PLACE_NONE {
                 let p = arena_alloc(layout, place);
                 if !p.is_null() {
+                    if !IN_ZEROED.load(Relaxed) {
+                        std::ptr::write_bytes(p, POISON, layout.size());
+                    }
                     return p;
                 }
                 FALLBACKS.fetch_add(1, Relaxed);
             }
         }
-        System.alloc(layout)
+        let p = System.alloc(layout);
+        // memory that was not asked to be zeroed is poisoned: a read of uninitialised memory (a tape grown
+        // with `alloc`/`realloc` and not cleared completely) then shows the same non-zero bytes in every
+        // process instead of whatever the system allocator left there
+        if !p.is_null() && !IN_ZEROED.load(Relaxed) {
+            std::ptr::write_bytes(p, POISON, layout.size());
+        }
+        p
     }
 
     unsafe fn alloc_zeroed(&self, layout: Layout) -> *mut u8 {
@@ -214,7 +227,11 @@ unsafe impl GlobalAlloc for GAlloc {
 
     unsafe fn realloc(&self, ptr: *mut u8, layout: Layout, new_size: usize) -> *mut u8 {
         if !ARMED.load(Relaxed) && !in_arena(ptr as usize) {
-            return System.realloc(ptr, layout, new_size);
+            let np = System.realloc(ptr, layout, new_size);
+            if !np.is_null() && new_size > layout.size() {
+                std::ptr::write_bytes(np.add(layout.size()), POISON, new_size - layout.size());
+            }
+            return np;
         }
         let new_layout = Layout::from_size_align_unchecked(new_size, layout.align());
         IN_REALLOC.store(true, Relaxed);
